@@ -421,6 +421,26 @@ func relevant(asserts []*smt.Term, goal *smt.Term) []*smt.Term {
 // Prepare builds and prints the query (must be called sequentially per engine). Obligations whose path condition
 // carries join disjunctions are split into one sub-query per feasible combination of paths, each simplified under
 // the literals of its combination; the obligation is discharged when every sub-query is unsatisfiable.
+// RetryPrepare prepares again an obligation whose preparation ran out of its budget (all cores busy), alone and with a
+// fresh budget. It reports whether a query exists afterwards.
+func (o *Obligation) RetryPrepare(seconds int) (ok bool) {
+	if o.full != nil || len(o.subs) > 0 {
+		return true
+	}
+	o.ctx.C.Deadline = time.Now().Add(time.Duration(seconds) * time.Second)
+	defer func() {
+		if rec := recover(); rec != nil {
+			o.Status = "undecided"
+			o.Output = fmt.Sprintf("preparation failed again: %v", rec)
+			o.subs = nil
+			ok = false
+		}
+	}()
+	o.Status = ""
+	o.Prepare()
+	return o.full != nil || len(o.subs) > 0 || o.Status != ""
+}
+
 func (o *Obligation) Prepare() {
 	e := o.ctx
 	c := e.C
@@ -597,6 +617,14 @@ func (o *Obligation) Discharge(solvers []smt.SolverSpec, dir string, timeoutSec,
 		}
 		sort.Strings(names)
 		o.Solver = fmt.Sprintf("%s (%d of %d path cases)", strings.Join(names, "+"), len(o.subs), o.Cases)
+		return
+	}
+	if o.full == nil {
+		// the query could not be prepared (budget): undecided, never a pass
+		o.Status = "undecided"
+		if o.Output == "" {
+			o.Output = "no query prepared"
+		}
 		return
 	}
 	o.textStd = o.ctx.C.Print(o.full, false)
